@@ -150,7 +150,10 @@ def maxEnd : List TSel → Option Nat → Option Nat
 /-- non-negated arms of `impl TestTextSelection for TextSelection :: test_set` -/
 def relSetPos (op : Op) (a : TSel) (s : TSet) (r : Res) : Bool :=
   match op with
-  | .equals _ _ | .inset _ _ | .overlaps false _ | .embeds false _ | .embedded false _ _
+  | .equals _ _ =>
+      -- a selection equals a set when the set holds that selection and nothing else
+      !s.items.isEmpty && s.items.all (fun c => relPos op a c r)
+  | .inset _ _ | .overlaps false _ | .embeds false _ | .embedded false _ _
   | .before false _ _ | .after false _ _ | .precedes false _ _ | .succeeds false _ _
   | .samebegin false _ | .sameend false _ | .samerange false _ =>
       s.items.any (fun c => relPos op a c r)
@@ -222,7 +225,7 @@ def setRelSetPos (op : Op) (s : TSet) (t : TSet) (r : Res) : Bool :=
   | .equals _ _ =>
       -- every member of the one among the members of the other, both ways round (a set may hold a member twice: the
       -- numbers of stored items are not compared)
-      s.items.all (fun a => relSetPos op a t r) && t.items.all (fun c => relSetPos op c s r)
+      s.items.all (fun a => t.items.any (fun c => relPos op a c r)) && t.items.all (fun c => s.items.any (fun a => relPos op c a r))
   | _ =>
     match op.pick with
     | .every => s.items.all (fun a => relSetPos op a t r)
